@@ -300,6 +300,21 @@ func (h *Harness) nextSerial() int {
 }
 
 // refFor resolves a token to a reference; tokens that were never spawned get an address nobody owns.
+// names of the scripted actors: every other one starts with "sub" — /user/sub is the subscription actor's address, and an
+// address that merely begins like it (/user/sub3, /user/subghost9) is an ordinary actor's (or nobody's) address
+func tokName(t int) string {
+	if t%2 == 1 {
+		return fmt.Sprintf("sub%d", t)
+	}
+	return fmt.Sprintf("n%d", t)
+}
+func ghostName(t int) string {
+	if t%2 == 1 {
+		return fmt.Sprintf("subghost%d", t)
+	}
+	return fmt.Sprintf("ghost%d", t)
+}
+
 func (h *Harness) refFor(t int) vivid.ActorRef {
 	h.mu.Lock()
 	defer h.mu.Unlock()
@@ -317,7 +332,7 @@ func (h *Harness) refFor(t int) vivid.ActorRef {
 		h.tokAt[addr] = t
 		return prc.NewProcessId(h.sys.PhysicalAddress(), addr)
 	}
-	g := h.sys.VerifGuardRef().Derivation(fmt.Sprintf("ghost%d", t))
+	g := h.sys.VerifGuardRef().Derivation(ghostName(t))
 	h.tokAt[g.GetLogicalAddress()] = t
 	return g
 }
@@ -383,7 +398,7 @@ func (h *Harness) futureAddr(t, depth int) (string, bool) {
 	if !ok {
 		return "", false
 	}
-	return pa + fmt.Sprintf("/n%d", t), true
+	return pa + "/" + tokName(t), true
 }
 
 type scriptActor struct {
@@ -577,7 +592,7 @@ type spawner interface {
 func (h *Harness) spawn(ctx spawner, tok, roleIdx int) {
 	role := &h.Scn.Roles[roleIdx]
 	parentAddr := ctx.Ref().GetLogicalAddress()
-	name := fmt.Sprintf("n%d", tok)
+	name := tokName(tok)
 	addr := parentAddr + "/" + name
 	h.mu.Lock()
 	h.addrOf[tok] = addr
